@@ -165,8 +165,10 @@ impl Directive {
                         bail!("Too many arguments for {}", self);
                     }
                     if let Some(Operand::E(expr)) = args.first() {
-                        if let Expr::Const(n) = expr {
-                            context.push_to_last((point, Item::ReserveData(*n)));
+                        // Symbols assigned with .set are only known in pass 2, so an operand
+                        // that cannot be evaluated yet is still skipped as before
+                        if let Ok(n) = expr.run(&context.common_context) {
+                            context.push_to_last((point, Item::ReserveData(n)));
                         }
                     }
                 } else {
